@@ -365,7 +365,7 @@ func absolutize(vars []*Term, body *Term) ([]*Term, *Term) {
 			seen[t.id] = true
 			if t.kind == 0 && t.op == "select" && len(t.args) == 2 {
 				ix := t.args[1]
-				if ix.kind == 0 && ix.op == "+" && len(ix.args) == 2 && ix.args[1] == v && !mentionsAny(ix.args[0], isVar) {
+				if ix.kind == 0 && ix.op == "+" && len(ix.args) == 2 && ix.args[1] == v && !mentionsAny(ix.args[0], map[int]bool{v.id: true}) {
 					found = ix
 					return
 				}
